@@ -23,6 +23,7 @@ import collections
 import decimal
 import enum
 import fractions
+import gzip
 import io
 import resource
 import struct
@@ -565,6 +566,40 @@ def check_values(ctx, values):
         if pos != len(e):
             ctx.violation("consumed-bytes", "loadb(stream): encoding has %d bytes, consumed %d" % (len(e), pos))
             return "violation"
+
+    # the other encode / decode entry points of a Serializable object carry the same encoding: gzip-wrapped
+    # (dumpz / loadz) and prefixed with the type registry (store_persistant / load_persistant)
+    for idx, (v, e, exp) in enumerate(zip(values, encs, norms)):
+        if not isinstance(v, Serializable):
+            continue
+        for name in ("z", "persistant"):
+            try:
+                if name == "z":
+                    blob = v.dumpz()
+                    inner = gzip.decompress(blob)
+                    d = Serializable.loadz(blob)
+                else:
+                    st_ = io.BytesIO()
+                    v.store_persistant(st_)
+                    blob = st_.getvalue()
+                    inner = blob[len(blob) - len(e):]
+                    d = Serializable.load_persistant(blob)
+            except HARNESS_EXC:
+                raise
+            except Exception as ex:  # noqa
+                ctx.violation("alt-entry-raised", "%s round trip of value #%d raised %s: %s although dumpb / loadb handle it" % (
+                    "dumpz/loadz" if name == "z" else "store_persistant/load_persistant", idx, type(ex).__name__, str(ex)[:200]))
+                return "violation"
+            if inner != e:
+                ctx.violation("alt-entry-differs", "%s carries an encoding that differs from dumpb() for value #%d" % (
+                    "dumpz" if name == "z" else "store_persistant", idx))
+                return "violation"
+            diff = first_diff(exp, norm(d, None, True))
+            if diff is not None:
+                ctx.violation("alt-entry-differs", "%s(value #%d) differs from the value at %s" % (
+                    "loadz(dumpz" if name == "z" else "load_persistant(store_persistant", idx, diff[0]))
+                return "violation"
+        ctx.label("alt-entry-points-checked")
     return "ok"
 
 
